@@ -225,7 +225,54 @@ fn systematic(ctx: &Ctx, errexit: bool) {
     ctx.count("systematic_programs", total as i64);
 }
 
+/// "Zero if none": `eval`, `.`, a trap action, a function body's `eval`, and a whole `-c` script
+/// that contain no command at all (empty, blanks, newlines, comments) yield status 0 whatever `$?`
+/// was before.
+fn commandless_scripts(ctx: &Ctx) {
+    let texts = ["", " ", "\n", "\n\n", "# comment", "# comment\n", "  \n# c\n\t\n", "\\\n", "\\\n\n"];
+    let carriers = [
+        ("eval", "probe -s 5 k0; eval \"$t\"; probe k1 \"$?\"\n"),
+        ("eval with two operands", "probe -s 5 k0; eval \"$t\" \"$t\"; probe k1 \"$?\"\n"),
+        ("command eval", "probe -s 5 k0; command eval \"$t\"; probe k1 \"$?\"\n"),
+        ("dot script", "probe -s 5 k0; . /tmp/empty.sh; probe k1 \"$?\"\n"),
+        ("dot script in a function", "f() { probe -s 5 k0; . /tmp/empty.sh; }; f; probe k1 \"$?\"\n"),
+        ("eval as the last command of a function", "f() { probe -s 5 k0; eval \"$t\"; }; f; probe k1 \"$?\"\n"),
+        ("eval in an and-or list", "probe -s 5 k0; eval \"$t\" && probe k1 0 || probe k1 \"$?\"\n"),
+        ("eval in a subshell", "probe -s 5 k0; ( eval \"$t\" ); probe k1 \"$?\"\n"),
+        ("sh -c", ""),
+    ];
+    for t in texts {
+        for (cname, tpl) in carriers {
+            let mut cfg = if cname == "sh -c" {
+                crate::vsh::VCfg::with_args(vec!["yash".into(), "-c".into(), t.to_string()])
+            } else {
+                crate::vsh::VCfg::script(tpl)
+            };
+            cfg.extra = crate::vsh::v_probes();
+            cfg.env_vars.push(("t".into(), t.to_string()));
+            cfg.files.push(("/tmp/empty.sh".into(), crate::vsh::FileSpec::Regular(t.as_bytes().to_vec())));
+            let out = crate::vsh::run_v(cfg);
+            ctx.eval();
+            ctx.count("commandless_script_cases", 1);
+            let got = if cname == "sh -c" {
+                out.exit_code().map(|c| c.to_string())
+            } else {
+                out.events.iter().find(|e| e.kind == "probe" && e.args.first().map(|a| a.as_str()) == Some("k1")).and_then(|e| e.args.get(1).cloned())
+            };
+            if got.as_deref() == Some("0") && out.end == crate::vsh::End::Done {
+                ctx.nontrivial_str(&format!("commandless|{cname}|{t}"));
+            } else {
+                ctx.violation(
+                    format!("commandless:{cname}"),
+                    format!("{cname} of the command-less text {t:?} after a command that returned 5: status {got:?}, expected 0\nscript:\n{tpl}stderr:\n{}", out.err()),
+                );
+            }
+        }
+    }
+}
+
 pub fn run_c02(ctx: &Ctx) {
+    commandless_scripts(ctx);
     systematic(ctx, false);
     *ctx.exhaustive.lock().unwrap() = Some(true);
     ctlrun::drive(ctx, if ctx.quick() { 150_000 } else { 3_000_000 }, C02_CFG, "C02", false, false, 1, 0);
